@@ -10,7 +10,7 @@ PROP = {
              "values, or an early response is not in first position; distinct = distinct canonical JSON of the sequence"),
     "assumptions": [
         "header names are HTTP tokens and values visible ASCII without CR/LF (the line-based header encoding cannot carry them and no producer emits them)",
-        "the fold is re-stated in the harness from the exported methods (EnsureRequestIsUpdated, ReqPrioritize, ReqToSpoeActions); the e2e unit covers the unexported fold in routing",
+        "the fold loop itself (getSPOEReqActions / getSPOERespActions / runOnRequest are unexported) is re-stated in the harness from the exported methods (EnsureRequestIsUpdated, ReqPrioritize, ReqToSpoeActions): a change confined to that loop, e.g. iterating in reverse, is not seen by this check",
     ],
     "units": [
         {"pkg": "c07", "test": "TestRequestFoldRandom", "quick": 20000, "thorough": 200000, "shards": 8},
